@@ -153,7 +153,7 @@ class NameGen:
             out = 'u' + str(self.r.randrange(1000))
         return out
 
-    def symlink_target(self):
+    def symlink_target(self, maxcomp=300):
         r = self.r
         k = r.random()
         comps = []
@@ -167,7 +167,8 @@ class NameGen:
             elif j < 0.9:
                 comps.append(self._word(RRCHARS.replace('.', ''), 1, 12))
             else:
-                comps.append(self._word(RRCHARS.replace('.', ''), *r.choice(((100, 120), (200, 249), (250, 250), (255, 255), (256, 300)))))
+                lo, hi = r.choice(((100, 120), (200, 249), (250, 250), (255, 255), (256, 300)))
+                comps.append(self._word(RRCHARS.replace('.', ''), min(lo, maxcomp), min(hi, maxcomp)))
         t = '/'.join(comps)
         if r.random() < 0.3:
             t = '/' + t
@@ -177,7 +178,7 @@ class NameGen:
 WEIGHTS = {
     'add_fp': 30, 'add_dir': 14, 'rm_file': 6, 'rm_dir': 4, 'add_link': 8, 'rm_link': 5,
     'add_symlink': 5, 'hide': 3, 'add_eltorito': 3, 'rm_eltorito': 1, 'add_isohybrid': 1,
-    'rm_isohybrid': 1, 'dup_pvd': 1, 'restart': 4, 'mass_dirs': 1, 'mass_files': 1,
+    'rm_isohybrid': 1, 'dup_pvd': 0.3, 'restart': 4, 'mass_dirs': 1, 'mass_files': 1,
 }
 
 
@@ -447,6 +448,8 @@ class OpGen:
         for ns in m.roots:
             for p, n in m.iter_ns(ns):
                 if n.kind == 'file' and n.blob != 'cat' and not (ns == 'udf' and n.noinode):
+                    if not M.hide_ok(m, n):
+                        continue
                     cands.append((ns, p))
                 elif n.kind == 'symlink' and ns == 'udf':
                     cands.append((ns, p))
@@ -488,7 +491,8 @@ class OpGen:
             if un is None:
                 return None
             op['udf'] = M.join(up, un)
-            t = self.names.symlink_target()
+            # a UDF path component holds at most 254 identifier bytes (L_CI is one byte)
+            t = self.names.symlink_target(maxcomp=254)
             op['udf_target'] = t
             if 'rr' not in op and not m.rr and r.random() < 0.5:
                 parent = self._pick_dir('iso', 7 if m.cfg['level'] != 4 else None)
@@ -609,6 +613,10 @@ class OpGen:
 
     def g_dup_pvd(self):
         if self.m.pvd_dups >= 3:
+            return None
+        if (self.m.has('udf') or self.m.eltorito) and self.ra.random() < 0.9:
+            # known findings (duplicate PVD + UDF anchors / El Torito sector 17):
+            # still generated, but rarely, so they do not starve the runs behind them
             return None
         return {'op': 'dup_pvd'}
 
